@@ -89,6 +89,7 @@ type AttemptResult struct {
 	ErrorPanic                string
 	Causes                    []string // causes actually injected before Stream returned, in order
 	CauseStep                 int
+	CauseSeq                  int // global event sequence number when the first cause fired
 	ReturnStep                int
 	Hang                      bool
 	HangDump                  []libGoroutine
@@ -871,6 +872,7 @@ func (r *Run) runAttempt(idx int, plan AttemptPlan) bool {
 	fire := func(name string) {
 		if !causeFired {
 			att.CauseStep = r.steps
+			att.CauseSeq = r.seq
 			lg := probeGoroutines()
 			for _, g := range lg {
 				if g.Role == "reader" && !r.connReading() {
